@@ -2,13 +2,17 @@
 Implementation under test: kapture.converter.colmap.export_colmap.export_colmap (database + text reconstruction) followed
 by kapture.converter.colmap.import_colmap.import_colmap (database + text reconstruction), and the pair-id arithmetic of
 kapture.converter.colmap.database."""
+import json
 import logging
 import math
 import os
 import shutil
+import subprocess
+import sys
 from fractions import Fraction
 
-import kv
+sys.path.insert(0, os.path.dirname(os.path.dirname(os.path.abspath(__file__))))   # harness/: this file is also the history worker
+import kv  # noqa: E402
 
 ID = 'C13'
 COQ_MODELS = ['MQV', 'MPose', 'MRigs', 'MColmap']
@@ -28,7 +32,10 @@ RULE = ('a case = one dataset built with the real kapture classes and written by
         'values), uint8 descriptors, matches on a random subset of pairs incl. index 2^32-1, 0..14 points with 3 or 6 columns, '
         'observations incl. points with empty tracks and observations in unposed images. A second stream leaves the range on purpose '
         '(UNKNOWN_CAMERA, 3-column keypoints, fractional colours, an image taken by a lidar, a rig chain of depth 11): only the '
-        'correspondence is checked there. Every case also feeds 12 random (a, b) with 0 <= a, b < MAX_IMAGE_ID through the real '
+        'correspondence is checked there. A third stream are HISTORIES: 2..3 export/import round trips of different (mostly rich) datasets made one '
+        'after the other in ONE python process of their own, each import with its own options (database + text / database only / text only, '
+        'skip_reconstruction, no_geometric_filtering); fixed patterns light>full, full>text-only, db>full>text, text-skip>db-skip>full plus random '
+        'ones; every call is judged by the oracle for its options and compared with the model of that call alone. Every case also feeds 12 random (a, b) with 0 <= a, b < MAX_IMAGE_ID through the real '
         'image_ids_to_pair_id / pair_id_to_image_ids. Non-trivial = in-range dataset with at least two images and at least one '
         'of {pose, keypoints, matches, points}; distinct = distinct dataset content.')
 TRUSTED = ['sqlite3 and the numpy blobs (float64 / float32 / uint8 / uint32 arrays are modelled as lists of exact numbers)',
@@ -38,7 +45,9 @@ TRUSTED = ['sqlite3 and the numpy blobs (float64 / float32 / uint8 / uint32 arra
            'kapture_to_dir / kapture_from_dir: the dataset export_colmap loads is read by the harness with the same kapture_from_dir and taken as the input',
            'COLMAP num_params per camera model: reference constants in harness/tables/colmap.py',
            'rigs_remove_inplace is Model/MRigs.remove_inplace (property C06 characterises it)']
-ASSUMPTIONS = ['matches are stored in lexical order of the two image names (kapture_format.adoc); other layouts are outside the model',
+ASSUMPTIONS = ['a database-only import gives an image without pose the all-zero prior the exporter wrote (COLMAP has no "no prior" but NULL): modelled, not judged',
+               'a text-only import cannot name an observation in an image without pose (images.txt lists posed images only): such observations are not judged for text-only calls',
+               'matches are stored in lexical order of the two image names (kapture_format.adoc); other layouts are outside the model',
                'poses are full (rotation and translation); partial poses are outside COLMAP\'s range and are not generated',
                'colours of 3-D points are compared only when they are integers (COLMAP stores bytes); an XYZ-only cloud comes back with black points',
                'an observation in an image without pose is inside the judged range (the statement lists no such exclusion): the unrepaired importer returns the image name "unknown"']
@@ -233,13 +242,50 @@ def _out_of_range(rng, tier):
     return d
 
 
+FULL = {'src': 'both', 'skip': False, 'nogeom': False}
+PATTERNS = [
+    [{'src': 'both', 'skip': True, 'nogeom': False}, FULL],                                   # light import, then a full one
+    [FULL, {'src': 'txt', 'skip': False, 'nogeom': False}],                                    # database with keypoints, then text only
+    [{'src': 'db', 'skip': False, 'nogeom': True}, FULL, {'src': 'txt', 'skip': False, 'nogeom': False}],
+    [{'src': 'txt', 'skip': True, 'nogeom': False}, {'src': 'db', 'skip': True, 'nogeom': False},
+     {'src': 'both', 'skip': False, 'nogeom': True}],
+]
+
+
+def _rich_dataset(rng, tier):
+    """an in-range dataset with poses, keypoints, points and observations (so that every import option has something to lose)"""
+    for _ in range(60):
+        d = _gen_dataset(rng, tier, 'in')
+        if d['traj'] and d['kp'] and d['kp']['files'] and d['points'] and d['obs'] and len(d['images']) >= 2:
+            return d
+    return d
+
+
+def _history(rng, tier, pattern):
+    steps = []
+    for o in pattern:
+        d = _rich_dataset(rng, tier) if rng.random() < 0.8 else _gen_dataset(rng, tier, 'in')
+        d['opts'] = dict(o)
+        steps.append(d)
+    return {'history': steps, 'in_range': True, 'tag': 'hist/' + '>'.join(
+        o['src'] + ('-skip' if o['skip'] else '') for o in pattern)}
+
+
 def gen_cases(rng, tier):
-    n_in, n_out = (60, 14) if tier == 'quick' else (600, 100)
+    n_in, n_out, n_hist = (48, 12, 12) if tier == 'quick' else (520, 90, 90)
     cases = []
     for _ in range(n_in):
         cases.append(_gen_dataset(rng, tier, 'in'))
     for _ in range(n_out):
         cases.append(_out_of_range(rng, tier))
+    # histories: 2..3 export/import round trips of different datasets with different import options, one python process each
+    for k in range(n_hist):
+        if k < 2 * len(PATTERNS) or rng.random() < 0.3:
+            pattern = PATTERNS[k % len(PATTERNS)]
+        else:
+            pattern = [{'src': rng.choice(['both', 'both', 'db', 'txt']), 'skip': rng.random() < 0.3, 'nogeom': rng.random() < 0.5}
+                       for _ in range(rng.choice([2, 3]))]
+        cases.append(_history(rng, tier, pattern))
     m = _max_image_id()
     for c in cases:
         c['pairs'] = [[rng.choice([rng.randrange(m), rng.randrange(10), m - 1 - rng.randrange(3)]),
@@ -314,7 +360,7 @@ def _read_dataset(k, kdir, kp_type, ds_type):
     import kapture.io.features as kfeat
     out = {}
     out['sensors'] = []
-    for sid, s in k.sensors.items():
+    for sid, s in (k.sensors or {}).items():
         if isinstance(s, kapture.Camera):
             out['sensors'].append([sid, 'camera', s.camera_type.name, [float(v) for v in s.camera_params]])
         else:
@@ -322,7 +368,7 @@ def _read_dataset(k, kdir, kp_type, ds_type):
     out['rigs'] = None if k.rigs is None else [[r, [[dev, _pose(p)] for dev, p in m.items()]] for r, m in k.rigs.items()]
     out['traj'] = None if k.trajectories is None else [[int(ts), [[dev, _pose(p)] for dev, p in m.items()]]
                                                        for ts, m in k.trajectories.items()]
-    out['images'] = [[int(ts), [[c, n] for c, n in m.items()]] for ts, m in k.records_camera.items()]
+    out['images'] = [[int(ts), [[c, n] for c, n in m.items()]] for ts, m in (k.records_camera or {}).items()]
     out['kp'] = out['desc'] = out['matches'] = None
     if k.keypoints is not None and kp_type in k.keypoints:
         f = k.keypoints[kp_type]
@@ -348,30 +394,28 @@ def _read_dataset(k, kdir, kp_type, ds_type):
     return out
 
 
-def run_impl(case, ctx):
-    import kapture
+def _run_step(ds, opts, base):
+    """one export_colmap + import_colmap of one dataset with the given import options, in this process"""
     import kapture.io.csv as kcsv
-    import kapture.converter.colmap.database as cdb
     from kapture.converter.colmap.export_colmap import export_colmap
     from kapture.converter.colmap.import_colmap import import_colmap
-    logging.disable(logging.CRITICAL)
-    base = os.path.join(ctx['tmp'], 'c')
     shutil.rmtree(base, ignore_errors=True)
     kdir, cdir, odir = os.path.join(base, 'kapture'), os.path.join(base, 'colmap'), os.path.join(base, 'imported')
     os.makedirs(kdir)
     os.makedirs(cdir)
     try:
-        _build(case, kdir)
+        _build(ds, kdir)
         loaded = _read_dataset(kcsv.kapture_from_dir(kdir), kdir, KP, DS)
-        obs = {'loaded': loaded, 'class': 'ok', 'exc': None, 'result': None}
+        obs = {'loaded': loaded, 'opts': dict(opts), 'class': 'ok', 'exc': None, 'result': None}
+        db, rec = os.path.join(cdir, 'colmap.db'), os.path.join(cdir, 'reconstruction')
         try:
-            export_colmap(kdir, os.path.join(cdir, 'colmap.db'), os.path.join(cdir, 'reconstruction'), None, None, None, True)
+            export_colmap(kdir, db, rec, None, None, None, True)
         except Exception as e:       # an outcome of the implementation, reported as such
             obs['class'], obs['exc'] = 'export_raises', f'{type(e).__name__}: {e}'[:300]
         if obs['class'] == 'ok':
             try:
-                k2 = import_colmap(odir, os.path.join(cdir, 'colmap.db'), os.path.join(cdir, 'reconstruction'), None, None,
-                                   KP, DS, False, False, True)
+                k2 = import_colmap(odir, db if opts['src'] != 'txt' else None, rec if opts['src'] != 'db' else None, None, None,
+                                   KP, DS, bool(opts['nogeom']), bool(opts['skip']), True)
                 r = _read_dataset(k2, odir, KP, DS)
                 # by image name
                 by_name = []
@@ -389,14 +433,45 @@ def run_impl(case, ctx):
                                  'points': r['points'], 'obs': r['obs']}
             except Exception as e:
                 obs['class'], obs['exc'] = 'import_raises', f'{type(e).__name__}: {e}'[:300]
-        obs['pairs'] = []
-        for a, b in case.get('pairs', []):
-            p = cdb.image_ids_to_pair_id(a, b)
-            x, y = cdb.pair_id_to_image_ids(p)
-            obs['pairs'].append([int(a), int(b), int(p), int(x), int(y)])
         return obs
     finally:
+        shutil.rmtree(base, ignore_errors=True)
+
+
+def _run_history(steps, base):
+    logging.disable(logging.CRITICAL)
+    try:
+        return [_run_step(ds, ds.get('opts', FULL), os.path.join(base, f's{i}')) for i, ds in enumerate(steps)]
+    finally:
         logging.disable(logging.NOTSET)
+
+
+def run_impl(case, ctx):
+    import kapture.converter.colmap.database as cdb
+    base = os.path.join(ctx['tmp'], 'c')
+    shutil.rmtree(base, ignore_errors=True)
+    os.makedirs(base)
+    try:
+        if 'history' in case:
+            # a history is ONE python process of its own: whatever a call leaves behind is seen by the next calls of the
+            # history and by nothing else, so a failing history fails again when replayed alone
+            fin, fout = os.path.join(base, 'history.json'), os.path.join(base, 'observed.json')
+            with open(fin, 'w') as f:
+                json.dump(case['history'], f)
+            p = subprocess.run([kv.PY, '-B', os.path.abspath(__file__), fin, fout, os.path.join(base, 'w')], env=kv.impl_env(),
+                               stdout=subprocess.PIPE, stderr=subprocess.STDOUT, text=True, timeout=CASE_TIMEOUT - 10)
+            if p.returncode != 0 or not os.path.exists(fout):
+                raise RuntimeError('history worker failed: ' + p.stdout[-600:])
+            steps = json.load(open(fout))
+        else:
+            steps = _run_history([case], os.path.join(base, 'w'))
+        obs = {'steps': steps, 'pairs': []}
+        for a, b in case.get('pairs', []):
+            pid = cdb.image_ids_to_pair_id(a, b)
+            x, y = cdb.pair_id_to_image_ids(pid)
+            obs['pairs'].append([int(a), int(b), int(pid), int(x), int(y)])
+        return obs
+    finally:
         shutil.rmtree(base, ignore_errors=True)
 
 
@@ -476,68 +551,112 @@ def _is_int_rows(rows):
     return all(float(v).is_integer() for r in rows for v in r)
 
 
-def oracle(case, obs):
-    """export then import gives back, by image name, the same cameras, poses, features, matches, points and observations."""
-    if not case.get('in_range'):
-        return None
+def _oracle_step(obs):
+    """One export + import, judged on what the import was asked to bring back.  With database + reconstruction and nothing
+    skipped this is the whole statement of C13; with the other options, the part of it the given artefacts carry:
+      database only : every image, its camera, the pose of posed images, keypoints / descriptors / matches
+      text only     : the posed images (images.txt lists no other), their cameras and poses, the x, y of their keypoints when
+                      the exporter wrote them (keypoints, points and observations all present), points, observations in posed images
+      skip_reconstruction : images, cameras and poses only."""
+    o = obs['opts']
+    src_kind, skip = o['src'], o['skip']
+    where = '' if (src_kind == 'both' and not skip) else f' [import {src_kind}{", skip_reconstruction" if skip else ""}]'
     if obs['class'] != 'ok':
-        return f'the round trip of an in-range dataset raised: {obs["class"]} {obs["exc"]}'
+        return f'the round trip of an in-range dataset raised: {obs["class"]} {obs["exc"]}' + where
     src, res = obs['loaded'], obs['result']
     src_images = [(ts, c, n) for ts, m in src['images'] for c, n in m]
-    names = [n for _, _, n in src_images]
-    got = {im['name']: im for im in res['images']}
-    if sorted(names) != sorted(im['name'] for im in res['images']):
-        return 'the set of image names changed'
-    sensors = {s[0]: s for s in src['sensors']}
     world = _expected_world_poses(src)
-    for ts, c, n in src_images:
+    posed = {n for ts, c, n in src_images if (ts, c) in world}
+    expected_images = [im for im in src_images if src_kind != 'txt' or im[2] in posed]
+    got = {im['name']: im for im in res['images']}
+    if sorted(n for _, _, n in expected_images) != sorted(im['name'] for im in res['images']):
+        return 'the set of image names changed' + where
+    sensors = {s[0]: s for s in src['sensors']}
+    for ts, c, n in expected_images:
         cam, g = sensors[c], got[n]
         if g['camera'] is None or g['camera'][0] != 'camera' or g['camera'][1] != cam[2]:
-            return 'camera model of an image changed'
+            return 'camera model of an image changed' + where
         if len(g['camera'][2]) != len(cam[3]) or any(a != b for a, b in zip(g['camera'][2], cam[3])):
-            return 'camera parameters of an image changed'
+            return 'camera parameters of an image changed' + where
         exp = world.get((ts, c))
+        if exp is None and src_kind == 'db':
+            continue          # the database stores an all-zero prior for an image without pose: not judged
         if (exp is None) != (g['pose'] is None):
-            return 'an image lost its pose' if g['pose'] is None else 'an image without pose got one'
+            return ('an image lost its pose' if g['pose'] is None else 'an image without pose got one') + where
         if exp is not None and not _same_motion(exp, (g['pose']['q'], g['pose']['t'])):
-            return 'the pose of an image changed (rig-mounted camera)' if any(c == dev for _, ms in (src['rigs'] or []) for dev, _ in ms) \
-                else 'the pose of an image changed'
-    for part, what in (('kp', 'keypoints'), ('desc', 'descriptors')):
-        s = dict((n, rows) for n, rows in (src[part]['files'] if src[part] else []))
-        r = dict((n, rows) for n, rows in (res[part]['files'] if res[part] else []))
+            return ('the pose of an image changed (rig-mounted camera)' if any(c == dev for _, ms in (src['rigs'] or []) for dev, _ in ms)
+                    else 'the pose of an image changed') + where
+    if skip:
+        return None
+    if src_kind in ('both', 'db'):
+        for part, what in (('kp', 'keypoints'), ('desc', 'descriptors')):
+            s = dict((n, rows) for n, rows in (src[part]['files'] if src[part] else []))
+            r = dict((n, rows) for n, rows in (res[part]['files'] if res[part] else []))
+            if set(s) != set(r):
+                return f'the set of images with {what} changed' + where
+            for n in s:
+                if [list(map(float, row)) for row in s[n]] != [list(map(float, row)) for row in r[n]]:
+                    return f'{what} of an image changed' + where
+        sm = {(a, b): [[int(x), int(y)] for x, y in rows] for a, b, rows in (src['matches'] or [])}
+        rm = {(a, b): [[int(x), int(y)] for x, y in rows] for a, b, rows in res['matches']}
+        if set(sm) != set(rm):
+            return 'the set of matched image pairs changed' + where
+        for p in sm:
+            if sm[p] != rm[p]:
+                return 'match index pairs of an image pair changed' + (' (columns swapped)' if sm[p] == [[y, x] for x, y in rm[p]] else '') + where
+    else:
+        # images.txt carries x, y of the keypoints of posed images when keypoints, points and observations are all there
+        s = {}
+        if src['kp'] is not None and src['points'] and src['obs']:
+            s = {n: [[float(v) for v in row[:2]] for row in rows] for n, rows in src['kp']['files'] if n in posed and rows}
+        r = dict((n, [[float(v) for v in row] for row in rows]) for n, rows in (res['kp']['files'] if res['kp'] else []))
         if set(s) != set(r):
-            return f'the set of images with {what} changed'
-        for n in s:
-            if [list(map(float, row)) for row in s[n]] != [list(map(float, row)) for row in r[n]]:
-                return f'{what} of an image changed'
-    sm = {(a, b): [[int(x), int(y)] for x, y in rows] for a, b, rows in (src['matches'] or [])}
-    rm = {(a, b): [[int(x), int(y)] for x, y in rows] for a, b, rows in res['matches']}
-    if set(sm) != set(rm):
-        return 'the set of matched image pairs changed'
-    for p in sm:
-        if sm[p] != rm[p]:
-            return 'match index pairs of an image pair changed' + (' (columns swapped)' if sm[p] == [[y, x] for x, y in rm[p]] else '')
+            return 'the set of images with keypoints changed' + where
+        if any(s[n] != r[n] for n in s):
+            return 'keypoints of an image changed' + where
+    if src_kind == 'db':
+        return None
     sp, rp = src['points'], res['points']
     if len(sp) != len(rp):
-        return 'the number of 3-D points changed'
+        return 'the number of 3-D points changed' + where
     # the relation (coordinates, image name, feature index), and the coordinates themselves as a multiset
-    def rel(points, observations):
+
+    def rel(points, observations, keep):
         out = []
         for i, lst in observations:
             if 0 <= i < len(points):
                 for n, j in lst:
-                    out.append((tuple(points[i][:3]), n, j))
+                    if keep(n):
+                        out.append((tuple(points[i][:3]), n, j))
         return sorted(out)
     if sorted(tuple(p[:3]) for p in sp) != sorted(tuple(p[:3]) for p in rp):
-        return 'coordinates of 3-D points changed'
+        return 'coordinates of 3-D points changed' + where
     if sp and len(sp[0]) == 6 and _is_int_rows([p[3:] for p in sp]):
         if sorted(tuple(p) for p in sp) != sorted(tuple(p) for p in rp):
-            return 'colours of 3-D points changed'
-    if rel(sp, src['obs']) != rel(rp, res['obs']):
-        a, b = rel(sp, src['obs']), rel(rp, res['obs'])
+            return 'colours of 3-D points changed' + where
+    if src_kind == 'both':
+        a, b = rel(sp, src['obs'], lambda n: True), rel(rp, res['obs'], lambda n: True)
+    else:   # without the database an observation in an image without pose cannot be named: only posed images are judged
+        a, b = rel(sp, src['obs'], lambda n: n in posed), rel(rp, res['obs'], lambda n: n != 'unknown')
+    if a != b:
         if any(n == 'unknown' for _, n, _ in b) and not any(n == 'unknown' for _, n, _ in a):
-            return 'observations changed: an observed image came back as "unknown"'
-        return 'the observation relation (coordinates, image name, feature index) changed'
+            return 'observations changed: an observed image came back as "unknown"' + where
+        return 'the observation relation (coordinates, image name, feature index) changed' + where
+    return None
+
+
+def oracle(case, obs):
+    """export then import gives back, by image name, the same cameras, poses, features, matches, points and observations --
+    for every call of a history, whatever was imported before in the same process."""
+    if not case.get('in_range'):
+        return None
+    for k, st in enumerate(obs['steps']):
+        sig = _oracle_step(st)
+        if sig:
+            if len(obs['steps']) > 1:
+                before = '>'.join(s['opts']['src'] + ('-skip' if s['opts']['skip'] else '') for s in obs['steps'][:k]) or 'nothing'
+                return f'{sig} (call {k + 1} of a history, after: {before})'
+            return sig
     return None
 
 
@@ -578,19 +697,16 @@ def _cdataset(d):
                                                  _crows(d['points']), obs)
 
 
-def encode(case, obs):
-    for part in ('kp', 'desc'):
-        f = obs['loaded'][part]
-        if f is not None and any(not float(v).is_integer() for _, rows in f['files'] for r in rows for v in r) and part == 'desc':
-            raise ValueError('non-integral descriptor')
-    for a, b, rows in (obs['loaded']['matches'] or []):
+def _cstep(st):
+    loaded = st['loaded']
+    for a, b, rows in (loaded['matches'] or []):
         if not _is_int_rows(rows):
             raise ValueError('non-integral match index: outside the model')
-    cls = {'ok': 'OOk', 'export_raises': 'OExportRaises', 'import_raises': 'OImportRaises'}[obs['class']]
-    if obs['result'] is None:
+    cls = {'ok': 'OOk', 'export_raises': 'OExportRaises', 'import_raises': 'OImportRaises'}[st['class']]
+    if st['result'] is None:
         o = f'(mkO {cls} [] [] [] [])'
     else:
-        r = obs['result']
+        r = st['result']
         kp = dict((n, rows) for n, rows in (r['kp']['files'] if r['kp'] else []))
         ds = dict((n, rows) for n, rows in (r['desc']['files'] if r['desc'] else []))
         ims = []
@@ -605,32 +721,49 @@ def encode(case, obs):
         matches = kv.clist(kv.cpair(kv.cpair(kv.cstr(a), kv.cstr(b)), _cmrows(rows)) for a, b, rows in r['matches'])
         oo = kv.clist(kv.cpair(kv.cz(i), kv.clist(kv.cpair(kv.cstr(n), kv.cz(j)) for n, j in lst)) for i, lst in r['obs'])
         o = '(mkO %s %s %s %s %s)' % (cls, kv.clist(ims), matches, _crows(r['points']), oo)
+    op = st['opts']
+    opts = '(mkIO %s %s %s)' % ({'both': 'SBoth', 'db': 'SDb', 'txt': 'STxt'}[op['src']], kv.cbool(op['skip']), kv.cbool(op['nogeom']))
+    return '(mkStep %s %s %s)' % (_cdataset(loaded), opts, o)
+
+
+def encode(case, obs):
     pairs = kv.clist(kv.cpair(*(kv.cz(v) for v in t)) for t in obs['pairs'])
-    return '(mkCase %s %s %s)' % (_cdataset(obs['loaded']), o, pairs)
+    return '(mkCase %s %s)' % (kv.clist(_cstep(st) for st in obs['steps']), pairs)
 
 
 # ------------------------------------------------------------------------------------------ evidence helpers
+def _datasets(case):
+    return case['history'] if 'history' in case else [case]
+
+
 def nontrivial(case, obs):
-    return bool(case.get('in_range')) and len(case['images']) >= 2 and any(case[k] for k in ('traj', 'kp', 'matches', 'points'))
+    return bool(case.get('in_range')) and all(len(d['images']) >= 2 and any(d[k] for k in ('traj', 'kp', 'matches', 'points'))
+                                              for d in _datasets(case))
 
 
 def classify(case, obs):
-    n = len(case['images'])
-    return '%s/%s/img=%s/%s%s%s%s' % (case.get('tag', '?'), obs['class'], '1' if n == 1 else ('2-3' if n <= 3 else '4+'),
-                                      'T' if case['traj'] else '-', 'K' if case['kp'] else '-',
-                                      'M' if case['matches'] else '-', 'P' if case['points'] else '-')
+    d = _datasets(case)[-1]
+    n = len(d['images'])
+    return '%s/%s/img=%s/%s%s%s%s' % (case.get('tag', '?'), '+'.join(st['class'] for st in obs['steps']),
+                                      '1' if n == 1 else ('2-3' if n <= 3 else '4+'),
+                                      'T' if d['traj'] else '-', 'K' if d['kp'] else '-',
+                                      'M' if d['matches'] else '-', 'P' if d['points'] else '-')
 
 
 def describe(case, obs):
-    return {'tag': case.get('tag'), 'images': case['images'], 'rigs': case['rigs'], 'n_traj': len(case['traj'] or []),
-            'kp_cols': case['kp']['cols'] if case['kp'] else None, 'matches': [m[:2] for m in (case['matches'] or [])],
-            'n_points': len(case['points'] or []), 'n_obs': len(case['obs'] or []),
-            'observed': {'class': obs['class'], 'exc': obs['exc'],
-                         'images': [(im['name'], im['camera'][1] if im['camera'] else None, im['pose'] is not None)
-                                    for im in (obs['result'] or {}).get('images', [])]}}
+    out = []
+    for d, st in zip(_datasets(case), obs['steps']):
+        out.append({'opts': st['opts'], 'images': d['images'], 'rigs': d['rigs'], 'n_traj': len(d['traj'] or []),
+                    'kp_cols': d['kp']['cols'] if d['kp'] else None, 'matches': [m[:2] for m in (d['matches'] or [])],
+                    'n_points': len(d['points'] or []), 'n_obs': len(d['obs'] or []),
+                    'observed': {'class': st['class'], 'exc': st['exc'],
+                                 'images': [(im['name'], im['camera'][1] if im['camera'] else None, im['pose'] is not None)
+                                            for im in (st['result'] or {}).get('images', [])],
+                                 'n_points': len((st['result'] or {}).get('points', []))}})
+    return {'tag': case.get('tag'), 'calls': out}
 
 
-def shrink(case):
+def _shrink_dataset(case):
     def without(**kw):
         c = dict(case)
         c.update(kw)
@@ -667,6 +800,21 @@ def shrink(case):
         yield without(sensors=[x for x in case['sensors'] if x is not s])
 
 
+def shrink(case):
+    if 'history' not in case:
+        yield from _shrink_dataset(case)
+        return
+    h = case['history']
+    if len(h) > 1:
+        for i in range(len(h)):
+            yield dict(case, history=h[:i] + h[i + 1:])
+    for i, d in enumerate(h):
+        for k, d2 in enumerate(_shrink_dataset(d)):
+            if k >= 12:
+                break
+            yield dict(case, history=h[:i] + [d2] + h[i + 1:])
+
+
 TECHNIQUE = ('Coq proof over a Gallina model of export (database + text reconstruction) and import: induction over the image, '
              'match, point and observation lists, Z arithmetic (div/mod) for pair ids, finite camera-model tables regenerated from '
              'the source; differential correspondence of the whole round trip by vm_compute, by image name')
@@ -677,7 +825,17 @@ LEVEL_TEXT = ('Theorems in coq/Props/C13.v hold for every dataset inside COLMAP\
               'trajectories hold, the same keypoints and descriptors, the same match rows for every image pair and no other pair, the '
               'same point coordinates and the same observation lists; pair ids decode to (min, max) for all ids below MAX_IMAGE_ID; the '
               'column swap is involutive; the camera-model table is a bijection with parameter counts 2 + COLMAP\'s. The model is tied to '
-              'the code by running export_colmap + import_colmap on generated datasets and comparing the re-imported dataset inside Coq.')
+              'the code by running export_colmap + import_colmap on generated datasets and comparing the re-imported dataset inside Coq, '
+              'single round trips as well as histories of 2-3 round trips with different import options made in one process (the model of a '
+              'call depends on that call only: C13_history_independent).')
 LEVEL_NOTE = ('partial: SQLite, numpy blobs, text lexing, float printing/parsing (contract read(show x)=x) and the quaternion library are '
               'trusted and only exercised; rig flattening is Model/MRigs.remove_inplace, whose characterisation (world pose = composition '
               'along the rig chain) is property C06; float rounding of the rig composition is compared within 1e-9.')
+
+
+if __name__ == '__main__':
+    # history worker: python c13.py <history.json> <observed.json> <scratch dir>  -- all calls of one history in THIS process
+    _steps = json.load(open(sys.argv[1]))
+    _out = _run_history(_steps, sys.argv[3])
+    with open(sys.argv[2], 'w') as _f:
+        json.dump(_out, _f)
